@@ -1683,6 +1683,9 @@ class FlowProposal(RejectionProposal):
                     old_weights_file = weights_file + ".old"
                     if os.path.exists(old_weights_file):
                         self.flow.reload_weights(old_weights_file)
+                        # Remove the incomplete file so that the next save
+                        # does not move it over the valid previous file
+                        os.remove(weights_file)
             elif os.path.exists(weights_file + ".old"):
                 # Killed after the previous file was moved but before the
                 # new file was created.
